@@ -151,6 +151,13 @@ TARGETS = [
      {'fragment': ('between', 'de_pds_fields', 'bit', 'message'),
       'params': [('message', ('dict', 'str', 'str')), ('bit_config', ('dict', 'str', 'cfg'))],
       'lean_name': '_dict_to_iso8583_carriers'}),
+    # what the element decoder does with the decoded text of an element: the card-number processors (PAN: the masked form,
+    # PAN-PREFIX: the leading digits) and then the typed conversion under its handler — the statements of _iso8583_to_field
+    # from `if field_processor == 'PAN':` up to `return_values = dict()`
+    ('cardutil/iso8583.py', '_iso8583_to_field', {}, 'pyval',
+     {'fragment': ('if_span', "field_processor == 'PAN'", 'return_values', 'field_data'),
+      'params': [('field_data', 'str'), ('field_processor', 'str'), ('bit_config', 'cfg'), ('bit', 'int')],
+      'lean_name': '_iso8583_to_field_value'}),
     # the PUBLIC entry points dumps / loads: the optional arguments (None or empty = the default encoding / the packaged
     # element table, which is a parameter of the translation) and the call of the worker, an external function
     ('cardutil/iso8583.py', 'dumps', {}, 'bytes',
@@ -1035,6 +1042,11 @@ class Translator:
                 return self.call(ast.copy_location(ast.Call(
                     func=ast.Attribute(value=ast.Name(id='binascii', ctx=ast.Load()), attr=name, ctx=ast.Load()),
                     args=list(args), keywords=[]), node), env)
+            if name not in self.known and name in ALL_KNOWN and any(
+                    isinstance(n, ast.ImportFrom) and n.module and n.module.startswith('cardutil')
+                    and any(a.name == name and a.asname is None for a in n.names) for n in self.mod.body):
+                # `from cardutil.<module> import name`: the function translated from that module
+                self.known = dict(self.known, **{name: ALL_KNOWN[name]})
             if name in self.known:
                 fn = self.known[name]
                 if len(args) >= 1 and isinstance(args[-1], ast.Starred) and isinstance(fn.params[-1][1], tuple) \
@@ -2071,6 +2083,16 @@ def fragment_of(body, spec):
     before the first assignment to `name`, followed by `return result`"""
     def assigns(st, name):
         return isinstance(st, ast.Assign) and any(isinstance(t, ast.Name) and t.id == name for t in st.targets)
+    if spec[0] == 'if_span':
+        # ('if_span', test, name, result): the statements from the first `if <test>:` (compared as source text) up to (not
+        # including) the first assignment to `name` after it, followed by `return result`
+        start = [i for i, st in enumerate(body) if isinstance(st, ast.If) and ast.unparse(st.test) == spec[1]]
+        if not start:
+            raise Untranslatable(f'no `if {spec[1]}:` to start the fragment at')
+        stop = [i for i, st in enumerate(body) if i > start[0] and assigns(st, spec[2])]
+        if not stop:
+            raise Untranslatable(f'no assignment to {spec[2]} to end the fragment at')
+        return body[start[0]:stop[0]] + [ast.Return(value=ast.parse(spec[3], mode='eval').body)]
     if spec[0] == 'between':
         # ('between', name, loopvar, result): the statements from the first assignment to `name` up to (not including) the
         # `for loopvar in ...` statement, followed by `return result`
